@@ -360,6 +360,43 @@ func ptRenderOrder(c *Ctx, pt *ssa.Function) {
 	if pt == nil {
 		return
 	}
+	// an anonymous template stays anonymous: the name stamped is the template's own name, or empty
+	for _, m := range calls(pt, xp+pkgComposite+".RenderComposedResourceMetadata") {
+		a := cfgx.CallArgs(m)
+		good := false
+		flow.Default.Any(a[len(a)-1], func(v ssa.Value) bool {
+			ci, ok := v.(*ssa.Call)
+			if !ok {
+				return false
+			}
+			n := cfgx.CalleeName(ci)
+			if i := strings.Index(n, "["); i > 0 {
+				n = n[:i]
+			}
+			if strings.HasSuffix(n, "ptr.Deref") && len(ci.Call.Args) == 2 {
+				if d, isC := cfgx.ConstString(ci.Call.Args[1]); isC && d == "" {
+					good = true
+				}
+			}
+			return false
+		})
+		if !good {
+			// written out: `if t.Name != nil { n = *t.Name }` - every leaf is a load of the template name or ""
+			good = true
+			for _, l := range leaves(a[len(a)-1]) {
+				_, p, _ := flow.AccessPathC(l)
+				if !strings.HasSuffix(p, "Name") {
+					if cv, ok := l.(*ssa.Convert); ok {
+						if _, p2, _ := flow.AccessPathC(cv.X); strings.HasSuffix(p2, "Name") {
+							continue
+						}
+					}
+					good = false
+				}
+			}
+		}
+		c.R.Check(good, site(m)+" template name or none", c.pos(m.Pos()), "the name stamped is the template's name, empty for an anonymous template", "an anonymous template is stamped with a made-up name: once the templates are named, the associator finds no template of that name and deletes the still-desired resource")
+	}
 	md := calls(pt, xp+pkgComposite+".RenderComposedResourceMetadata")
 	ps := calls(pt, xp+pkgComposite+".RenderFromCompositePatches")
 	if len(md) == 0 || len(ps) == 0 {
